@@ -11,7 +11,8 @@
 (*               on the REAL result;                                        *)
 (*   Drift(e)    the recorded result differs from Pred.                     *)
 (* Cases:  camel {s} | sanitize {s, cls} | fieldmask {s} |                  *)
-(*         msgnames {level, fields, oname, nested, enums}                   *)
+(*         msgnames {level, fields, oname, nested, enums, nfields, evals,   *)
+(*                   exts, tenum}                                           *)
 (***************************************************************************)
 EXTENDS GoNamesMsg, TLC
 
@@ -20,7 +21,14 @@ Count(s, x) == LET RECURSIVE Cnt(_)
                IN Cnt(1)
 SameBag(a, b) == Len(a) = Len(b) /\ \A x \in Range(a) \cup Range(b) : Count(a, x) = Count(b, x)
 
-MsgOf(e) == [level |-> e.level, fields |-> e.fields, oname |-> e.oname, nested |-> e.nested, enums |-> e.enums]
+\* (events recorded before defaults, nested fields and enum values entered the model carry no such keys)
+FieldOf(f) == [n |-> f.n, mem |-> f.mem, rep |-> f.rep, dflt |-> IF "dflt" \in DOMAIN f THEN f.dflt ELSE FALSE]
+MsgOf(e) == [level |-> e.level, fields |-> [i \in 1..Len(e.fields) |-> FieldOf(e.fields[i])], oname |-> e.oname,
+             nested |-> e.nested, enums |-> e.enums,
+             nfields |-> IF "nfields" \in DOMAIN e THEN e.nfields ELSE [k \in 1..Len(e.nested) |-> <<>>],
+             evals |-> IF "evals" \in DOMAIN e THEN e.evals ELSE [k \in 1..Len(e.enums) |-> <<>>],
+             exts |-> IF "exts" \in DOMAIN e THEN e.exts ELSE <<>>,
+             tenum |-> IF "tenum" \in DOMAIN e THEN e.tenum ELSE <<>>]
 
 Pred(e) ==
   CASE e.op = "camel" -> [r |-> GoCamelCase(e.s)]
